@@ -20,7 +20,7 @@ ID = 'C09'
 MODEL_TARGETS = ['theories/C09/Run.vo']
 PROOF_TARGETS = ['theories/C09/Properties.vo']
 PROPERTIES_V = 'theories/C09/Properties.v'
-IMPORTS = 'Require Import FV.Gen.C09 FV.C09.Model FV.C09.CmdModel FV.C09.Run.'
+IMPORTS = 'Require Import FV.Gen.C09 FV.C09.Model FV.C09.CmdModel FV.C09.PropModel FV.C09.Run.'
 CASE_TYPE = 'case'
 CHECK = 'check_case'
 SHARD_SIZE = 150
@@ -39,6 +39,11 @@ RULE = ('programs of 3..12 ops over {define class (module class or plain mixin; 
         'st (StructOf with a nested TupleOf), status (StatusType) with $ units in the members, several instances of one class '
         'with different main units, configuration of member units, setProperty on a MEMBER datatype of one instance; a fixed '
         'family of 96 such programs runs first; '
+        'module level PROPERTIES: per class body (module class or plain mixin) gain / level as Property(IntRange, default, '
+        'optional value) or bare value, visibility / slowinterval of Module as bare value (any number of levels, through '
+        'plain mixins before or after the module class in the bases), configuration of a property per instance, '
+        'setProperty(valid / invalid value) on one instance at run time; a fixed family of 11 such programs (one / two / three '
+        'levels, mixins, redefinition, instances of every class before and after) runs first; '
         'seeded random plus exhaustive small hierarchies in thorough; after every op the description of every class '
         'and instance is recorded; non-trivial = at least two module classes and one further op; distinct = distinct '
         'op lists')
@@ -63,6 +68,11 @@ ASSUMPTIONS = [
     'attribute inputCallbacks; its accessibles (controlled_by, target) are written by the generated programs.  The callbacks '
     'themselves are never called (only the registered names are observed); HasOutputModule has no class level state of its '
     'own (fact mixins_no_mutable_class_attribute) and reaches this state only through output_module.register_input',
+    'module PROPERTIES (PropModel.v): Property objects with integral range datatypes; class bodies and configurations hold '
+    'valid values only (an invalid bare value makes the class definition raise: outside the domain); mandatory properties, '
+    'extname / export and the min <= max rule of checkProperties are not modelled (the oracle compares value and default of '
+    'EVERY Property of every class and the effective value of every property of every instance); the instance reads the '
+    'propertyDict of the per class wrapper Module.__new__ creates, the model the one of the class (same objects)',
     'whether Module.__init__ accepts a configuration is decided by the parameter component and handed to the command '
     'component with the op (generated commands always have a description; check_case verifies that an accepted instance '
     'is acceptable for the command component)',
@@ -78,7 +88,14 @@ CMD = 'cmd'
 CMDS = ['cmd', 'go', 'calc']
 MEMBERS = {'a': 1, 'b': 2}            # struct member name -> code
 DEFAULTS = [[], ['b'], ['a', 'b'], ['a']]     # parameters of the decorated function that have a default
-RUNTIME_OPS = ('setprop', 'grow', 'setmember', 'setarg')
+RUNTIME_OPS = ('setprop', 'grow', 'setmember', 'setarg', 'setpprop')
+# modelled module PROPERTIES (PropModel.v), code = index: gain / level are Property objects written by the generated
+# classes (IntRange), visibility / slowinterval are the ones of frappy.modulebase.Module; all of them are overridden by
+# bare values in class bodies (module classes and plain mixins), configured per instance and set at run time
+PNAMES = ['gain', 'level', 'visibility', 'slowinterval']
+PRANGE = {'gain': (1, 1000), 'level': (0, 10), 'visibility': (1, 3), 'slowinterval': (1, 120)}
+PVALS = {'gain': [1, 10, 100, 999], 'level': [0, 1, 2, 5], 'visibility': [1, 2, 3], 'slowinterval': [1, 30, 60, 120]}
+PBAD = {'gain': 0, 'level': 11, 'visibility': 7, 'slowinterval': 121}
 PKEYS = {'description': 0, 'group': 1, 'value': 2, 'min': 3, 'max': 4, 'unit': 5}
 PROBES = [-100, -7, -3, -1, 0, 1, 2, 3, 5, 7, 10, 100]
 CMD_PROBES = [-7, 0, 3, 8, 30, {'a': 1, 'b': 2}, {'a': 1}, {'b': 8}, {}, {'a': 30, 'b': -7}]
@@ -239,13 +256,50 @@ def _inputs(x):
         return [type(e).__name__]
 
 
+def _pval(v):
+    from frappy.properties import UNSET
+    return 'UNSET' if v is UNSET else _canon(v)
+
+
+def _digest(x):
+    if os.environ.get('C09_FULL'):
+        return x
+    return hashlib.md5(json.dumps(x, sort_keys=True, default=str).encode()).hexdigest()[:16]
+
+
+def _class_props(cls):
+    """class level Property objects: preset value (or UNSET) and default of every property in propertyDict"""
+    pd = cls.propertyDict
+    full = [[pn, _pval(po.value), _pval(po.default)] for pn, po in pd.items()]
+    pm = [[PNAMES.index(pn), None if _pval(po.value) == 'UNSET' else _pval(po.value), _pval(po.default)]
+          for pn, po in pd.items() if pn in PNAMES]
+    return _digest(full), pm
+
+
 def _describe_class(cls):
-    return {'acc': [_describe_acc(n, o) for n, o in cls.accessibles.items()], 'inputs': _inputs(cls)}
+    props, pm = _class_props(cls)
+    return {'acc': [_describe_acc(n, o) for n, o in cls.accessibles.items()], 'inputs': _inputs(cls),
+            'props': props, 'pm': pm}
+
+
+def _inst_eprops(inst):
+    """effective value of every module property of an instance (what getattr answers)"""
+    out = []
+    for pn in inst.propertyDict:
+        if pn == 'implementation':
+            continue
+        try:
+            out.append([pn, _pval(getattr(inst, pn))])
+        except Exception as e:
+            out.append([pn, type(e).__name__])
+    return out
 
 
 def _describe_inst(inst):
     return {'acc': [_describe_acc(n, o, inst) for n, o in inst.accessibles.items()],
             'props': {k: _canon(v) for k, v in sorted(inst.propertyValues.items()) if k != 'implementation'},
+            'eprops': _digest(_inst_eprops(inst)),
+            'pm': [[PNAMES.index(pn), v] for pn, v in _inst_eprops(inst) if pn in PNAMES],
             'inputs': _inputs(inst)}
 
 
@@ -350,6 +404,18 @@ class _World:
         created = []
         for attr, e in c['dict']:
             kind = e[0]
+            if kind == 'pnew':
+                # a module level Property written in the class body
+                from frappy.properties import Property
+                from frappy.datatypes import IntRange
+                s = e[1]
+                kw = {} if s.get('value') is None else {'value': s['value']}
+                body[attr] = Property(f'property {attr}', IntRange(s['lo'], s['hi']), default=s['default'],
+                                      extname=attr, **kw)
+                continue
+            if kind == 'pbare':
+                body[attr] = e[1]
+                continue
             if kind == 'xparam':
                 s = e[1]
                 kw = {}
@@ -419,6 +485,10 @@ class _World:
                 cls = self.define(idx, op[1])
                 self.classes[idx] = cls
                 info['mro'] = [self.classes.index(b) for b in cls.__mro__ if b in self.classes]
+                # the MRO as the property component sees it: 0 = frappy.modulebase.Module, generated class i = i + 1
+                from frappy.modules import Module
+                info['pmro'] = [0 if b is Module else self.classes.index(b) + 1
+                                for b in cls.__mro__ if b is Module or b in self.classes]
                 from frappy.params import Accessible
                 # names whose entry in the class __dict__ is an accessible object (includes the ones added by setattr
                 # when a bare value found in a base was turned into a Parameter)
@@ -429,6 +499,9 @@ class _World:
                 cls = self.classes[op[1]]
                 cfg = {'description': 'module'}
                 for name, kvs in op[2]:
+                    if name in PNAMES:
+                        cfg[name] = kvs[0][1]       # a module property: `name = value`
+                        continue
                     d = {}
                     for k, v in kvs:
                         d[k] = {'description': s_desc, 'group': s_group, 'unit': s_unit}.get(k, lambda x: x)(v)
@@ -444,6 +517,17 @@ class _World:
                 else:
                     v = {'description': s_desc, 'group': s_group, 'unit': s_unit}.get(op[3], lambda x: x)(op[4])
                     inst.parameters[op[2]].setProperty(op[3], v)
+            elif kind == 'setpprop':
+                # ['setpprop', inst, property, value]: HasProperties.setProperty on ONE instance at run time
+                from frappy.errors import BadValueError
+                inst = self.insts[op[1]] if op[1] < len(self.insts) else None
+                if inst is None or op[2] not in inst.propertyDict:
+                    info['exc'] = 'skip'
+                else:
+                    try:
+                        inst.setProperty(op[2], op[3])
+                    except BadValueError:
+                        info['refused'] = True
             elif kind == 'setmember':
                 inst = self.insts[op[1]] if op[1] < len(self.insts) else None
                 if inst is None or op[2] not in inst.parameters:
@@ -539,6 +623,17 @@ class _World:
                     if isinstance(o, Command):
                         vec.append([f'i{i}', n, self.reg(o.propertyValues.get('argument')),
                                     self.reg(o.propertyValues.get('result'))])
+        return vec
+
+    def pidvector(self):
+        """identity of the class level Property objects: propertyDict, then the entries of the class __dict__"""
+        from frappy.properties import Property
+        vec = []
+        for i, cls in enumerate(self.classes):
+            if cls is not None and self.module[i]:
+                row = [self.reg(po) for pn, po in cls.propertyDict.items() if pn in PNAMES]
+                row += [self.reg(v) if isinstance(v, Property) else -1 for n, v in cls.__dict__.items() if n in PNAMES]
+                vec.append([f'c{i}', '*'] + row)
         return vec
 
     def own_mutated(self):
@@ -649,6 +744,7 @@ def run_case(case):
     w, infos, deltas, muts, final, _ = _exec(case)
     case = {'ops': case['ops'][:len(infos)]}     # truncated where a class definition raised
     obs = {'ops': infos, 'deltas': deltas, 'own_mut': muts, 'ids': w.idvector(), 'xids': w.xidvector(),
+           'pids': w.pidvector(),
            'inst_shared': w.shared_with_instances()}
     # the description of every class / instance when only its own chain (and its own ops) exist
     iso = {}
@@ -728,7 +824,8 @@ def changed_names(a, b):
     names = [n for n in sorted(set(da) | set(db)) if da.get(n) != db.get(n)]
     if not names and [x['n'] for x in a['acc']] != [x['n'] for x in b['acc']]:
         names = ['*order']
-    if not names and a.get('props') != b.get('props'):
+    if not names and (a.get('props') != b.get('props') or a.get('eprops') != b.get('eprops')
+                      or a.get('pm') != b.get('pm')):
         names = ['*props']
     if not names and a.get('inputs') != b.get('inputs'):
         names = ['*inputs']
@@ -757,6 +854,7 @@ def oracle(case, obs):
                 what = {'class': 'defining a class', 'inst': 'creating and configuring an instance',
                         'setprop': 'changing a property of one instance', 'grow': 'extending the enum of one instance',
                         'setmember': 'changing a property of a member datatype of one instance',
+                        'setpprop': 'setting a module property of one instance',
                         'setarg': 'changing a datatype property of the argument/result of a command of one instance'}[kind]
                 fails.append({'class': ('class' if ent[0] == 'c' else 'instance') + '-changed-by-' + kind,
                               'what': f'op {t} ({what}: {op[1] if kind != "class" else new}) changed the description of '
@@ -1036,7 +1134,7 @@ def enc_op(op, info):
         return '(ODefine (Build_cdef %s %s %s))' % (
             gal.boolean(c['module']), gal.lst(info['mro'], gal.nat),
             gal.lst(d, lambda p: f'({gal.nat(NAMES.index(p[0]))}, {enc_entry(p[1])})'))
-    if k in ('setmember', 'setarg'):
+    if k in ('setmember', 'setarg', 'setpprop'):
         return '(OSetProp %s 99%%nat 0%%nat (0)%%Z)' % gal.nat(op[1])     # no effect on the part modelled in Model.v
     if k == 'inst':
         cfg = [(n, kvs) for n, kvs in op[2] if n in NAMES]
@@ -1152,6 +1250,36 @@ def xmodel_desc(desc):
     return '(%s, %s)' % (gal.lst(cmds, xmodel_cmd), gal.lst(desc.get('inputs', []), lambda s: gal.z(code(s))))
 
 
+# ---- module property component (PropModel.v)
+def enc_pop(op, info):
+    k = op[0]
+    if k == 'class':
+        c = op[1]
+        body = []
+        for a, e in c['dict']:
+            if a in PNAMES and e[0] == 'pnew':
+                x = e[1]
+                body.append('(%s, PBNew %s %s %s %s)' % (gal.nat(PNAMES.index(a)), gal.z(x['lo']), gal.z(x['hi']),
+                                                       gal.z(x['default']), oz(x.get('value'))))
+            elif a in PNAMES and e[0] == 'pbare':
+                body.append('(%s, PBBare %s)' % (gal.nat(PNAMES.index(a)), gal.z(e[1])))
+        return '(PDefine (mkpcdef %s %s [%s]))' % (gal.boolean(c['module']), gal.lst(info['pmro'], gal.nat), '; '.join(body))
+    if k == 'inst':
+        cfg = [(PNAMES.index(n), kvs[0][1]) for n, kvs in op[2] if n in PNAMES]
+        return '(PInst %s %s %s)' % (gal.nat(op[1] + 1), gal.boolean(info['exc'] is None),
+                                     gal.lst(cfg, lambda p: f'({gal.nat(p[0])}, {gal.z(p[1])})'))
+    if k == 'setpprop' and info['exc'] is None:
+        return '(PSetProp %s %s %s)' % (gal.nat(op[1]), gal.nat(PNAMES.index(op[2])), gal.z(op[3]))
+    return 'PNop'
+
+
+def pmodel_desc(desc):
+    pm = desc.get('pm', [])
+    if pm and len(pm[0]) == 3:       # class: value or UNSET, default
+        return gal.lst(pm, lambda x: f'({gal.nat(x[0])}, ({oz(x[1])}, {gal.z(x[2])}))')
+    return gal.lst(pm, lambda x: f'({gal.nat(x[0])}, (Some {gal.z(x[1])}, (0)%Z))')
+
+
 def canon_ids(vec):
     m = {}
     out = []
@@ -1165,7 +1293,7 @@ def canon_ids(vec):
 
 
 def encode(case, obs):
-    ops, dl, oks, xops, xdl = [], [], [], [], []
+    ops, dl, oks, xops, xdl, pops, pdl = [], [], [], [], [], [], []
     last = {}
 
     def changed(comp, delta, enc):
@@ -1185,10 +1313,13 @@ def encode(case, obs):
         dl.append(changed('p', delta, model_desc))
         xops.append(enc_xop(op, info))
         xdl.append(changed('x', delta, xmodel_desc))
+        pops.append(enc_pop(op, info))
+        pdl.append(changed('m', delta, pmodel_desc))
     return ('(Build_case [%s] [%s] [%s] %s '
-            '[%s] [%s] %s)') % (
+            '[%s] [%s] %s [%s] [%s] %s)') % (
         '; '.join(ops), '; '.join(oks), '; '.join(dl), gal.lst(canon_ids(obs['ids']), gal.nat),
-        '; '.join(xops), '; '.join(xdl), gal.lst(canon_ids(obs['xids']), gal.nat))
+        '; '.join(xops), '; '.join(xdl), gal.lst(canon_ids(obs['xids']), gal.nat),
+        '; '.join(pops), '; '.join(pdl), gal.lst(canon_ids(obs['pids']), gal.nat))
 
 
 def model_result_term(case, obs):
@@ -1215,7 +1346,8 @@ def outcome_labels(case, obs):
                     labs.add(f'{a}-' + e[0] + ('-signature' if e[0] == 'cmd' and e[1].get('sig') else '')
                              + ('-defaults' if len(e) > 1 and e[1].get('defaults') else ''))
         else:
-            labs.add(op[0] + ('' if info['exc'] is None else ('-skipped' if info['exc'] == 'skip' else '-rejected')))
+            labs.add(op[0] + ('' if info['exc'] is None else ('-skipped' if info['exc'] == 'skip' else '-rejected'))
+                     + ('-refused' if info.get('refused') else ''))
     if any(obs['own_mut']):
         labs.add('own-datatype-mutated')
     for f in oracle(case, obs):
@@ -1319,6 +1451,7 @@ class _Gen:
         self.module, self.bases, self.has_dt, self.has_any = [], [], [], []
         self.x_def, self.x_none = [], []      # extra names fully defined / removed somewhere in the ancestor closure
         self.c_def, self.c_none = [], []      # commands defined by Command(...) / removed somewhere in the closure
+        self.p_def = []                       # custom properties with a Property object somewhere in the ancestor closure
 
     def new_class(self):
         rng = self.rng
@@ -1379,6 +1512,19 @@ class _Gen:
             else:
                 d.append([name, ['none']])
                 xn = xn | {name}
+        pdef = set().union(*[self.p_def[b] for b in bases]) if bases else set()
+        for name in PNAMES:
+            if rng.random() >= (0.28 if module else 0.22):
+                continue
+            custom = name in ('gain', 'level')
+            if custom and (name not in pdef and rng.random() < 0.75 or rng.random() < 0.1):
+                lo, hi = PRANGE[name]
+                d.append([name, ['pnew', {'lo': lo, 'hi': hi, 'default': rng.choice(PVALS[name]),
+                                          'value': rng.choice([None, None] + PVALS[name])}]])
+                pdef = pdef | {name}
+            else:
+                d.append([name, ['pbare', rng.choice(PVALS[name])]])
+        self.p_def.append(pdef)
         self.module.append(module)
         self.bases.append(bases)
         self.has_dt.append(dt)
@@ -1391,6 +1537,9 @@ class _Gen:
 
     def sure_extras(self, ci):
         return sorted(self.x_def[ci] - self.x_none[ci])
+
+    def sure_props(self, ci):
+        return sorted(self.p_def[ci]) + ['visibility', 'slowinterval']
 
     def sure_cmds(self, ci):
         return sorted(self.c_def[ci] - self.c_none[ci])
@@ -1455,7 +1604,8 @@ def rand_case(rng, nops=None):
         elif r < 0.66 or not inst_cls:
             ci = rng.choice(inst_cls) if inst_cls and rng.random() < 0.45 else rng.choice(mods)
             ccfg = [[n, [['description', rng.choice([7, 8])]]] for n in g.sure_cmds(ci) if rng.random() < 0.12]
-            ops.append(['inst', ci, rand_cfg(rng, g.has_any[ci]) + rand_xcfg(rng, g.sure_extras(ci)) + ccfg])
+            pcfg = [[n, [['value', rng.choice(PVALS[n])]]] for n in g.sure_props(ci) if rng.random() < 0.15]
+            ops.append(['inst', ci, rand_cfg(rng, g.has_any[ci]) + rand_xcfg(rng, g.sure_extras(ci)) + ccfg + pcfg])
             inst_cls.append(ci)
         elif r < 0.72 and any(set(g.sure_cmds(c)) & {'go', 'calc'} for c in inst_cls):
             ii = rng.choice([k for k, c in enumerate(inst_cls) if set(g.sure_cmds(c)) & {'go', 'calc'}])
@@ -1476,6 +1626,10 @@ def rand_case(rng, nops=None):
             k = rng.choice(keys)
             v = rng.choice({'description': [0, 9], 'group': [0, 5], 'min': [-40, 0, 3], 'max': [0, 6, 70], 'unit': [0, 6, 7]}[k])
             ops.append(['setprop', ii, name, k, v])
+        elif r < 0.95:
+            ii = rng.randrange(len(inst_cls))
+            name = rng.choice(g.sure_props(inst_cls[ii]))
+            ops.append(['setpprop', ii, name, PBAD[name] if rng.random() < 0.2 else rng.choice(PVALS[name])])
         else:
             grow += 1
             ops.append(['grow', rng.randrange(len(inst_cls)), 1000 + grow])
@@ -1581,6 +1735,53 @@ def cmd_cases():
     return out
 
 
+def prop_cases():
+    """fixed programs about module level properties, always run first: a Property written in a base class (with and
+    without a preset value), overridden by bare values at one and at two levels, through a plain mixin (before / after the
+    module class in the bases), siblings, a class without body; instances of every class before and after the later
+    definitions, configured and not; setProperty at run time on one of two instances"""
+    out = []
+    val = ['param', {'desc': 1, 'dt': ['float', 0, 10, 1], 'inherit': True}]
+
+    def pnew(name, default, value=None):
+        lo, hi = PRANGE[name]
+        return [name, ['pnew', {'lo': lo, 'hi': hi, 'default': default, 'value': value}]]
+
+    def bare(**kw):
+        return [[n, ['pbare', v]] for n, v in kw.items()]
+    for preset in (None, 5):
+        base = ['class', {'module': True, 'bases': [], 'dict': [['value', val], pnew('gain', 1), pnew('level', 0, preset)]}]
+        amp = ['class', {'module': True, 'bases': [0], 'dict': bare(gain=10, level=1, visibility=2, slowinterval=30)}]
+        other = ['class', {'module': True, 'bases': [0], 'dict': bare(gain=100, level=2)}]
+        big = ['class', {'module': True, 'bases': [1], 'dict': bare(gain=999, level=5, visibility=3, slowinterval=60)}]
+        empty = ['class', {'module': True, 'bases': [1], 'dict': []}]
+        hidden = ['class', {'module': False, 'bases': [], 'dict': bare(gain=999, level=5, slowinterval=120)}]
+        # two levels of bare values, instances of the middle class before and after
+        out.append({'ops': [base, amp, other, ['inst', 1, []], ['inst', 1, [['gain', [['value', 100]]]]], big,
+                            ['inst', 1, []], ['inst', 3, []], ['inst', 2, []], ['inst', 0, []], empty, ['inst', 4, []]]})
+        # a plain mixin with bare values joined with a class that has bare values already
+        for order in ([3, 1], [1, 3]):
+            out.append({'ops': [base, amp, other, hidden, ['inst', 1, []],
+                                ['class', {'module': True, 'bases': order, 'dict': []}], ['inst', 1, []], ['inst', 4, []],
+                                ['class', {'module': True, 'bases': [3, 2], 'dict': bare(level=0)}], ['inst', 2, []],
+                                ['inst', 5, [['slowinterval', [['value', 1]]]]]]})
+        # three levels, the middle one without body; run-time setProperty on one of two instances
+        out.append({'ops': [base, amp, empty, ['class', {'module': True, 'bases': [2], 'dict': bare(gain=100, visibility=1)}],
+                            ['inst', 2, []], ['inst', 1, []], ['inst', 2, []], ['setpprop', 0, 'gain', 999],
+                            ['setpprop', 2, 'visibility', 3], ['setpprop', 2, 'level', 11], ['inst', 2, []], ['inst', 3, []]]})
+        # the Property object itself is redefined below a bare value, then overridden again
+        out.append({'ops': [base, amp, ['class', {'module': True, 'bases': [1], 'dict': [pnew('gain', 10, 100)]}],
+                            ['class', {'module': True, 'bases': [2], 'dict': bare(gain=1)}], ['inst', 2, []], ['inst', 1, []],
+                            ['class', {'module': True, 'bases': [2], 'dict': bare(gain=999)}], ['inst', 2, []], ['inst', 3, []]]})
+    # a Property object living in a plain mixin
+    mix = ['class', {'module': False, 'bases': [], 'dict': [pnew('gain', 10, 100)]}]
+    out.append({'ops': [mix, ['class', {'module': True, 'bases': [0], 'dict': [['value', val]]}],
+                        ['class', {'module': True, 'bases': [1], 'dict': bare(gain=1)}], ['inst', 1, []],
+                        ['class', {'module': True, 'bases': [1], 'dict': bare(gain=999)}],
+                        ['class', {'module': True, 'bases': [2], 'dict': bare(gain=10)}], ['inst', 1, []], ['inst', 2, []]]})
+    return out
+
+
 def gen_cases(seed, tier):
     rng = random.Random(seed * 1000003 + 9)
     n = {'quick': 2000, 'thorough': 14000, 'search': 14000}[tier]
@@ -1589,7 +1790,7 @@ def gen_cases(seed, tier):
     if tier == 'quick':
         rng2 = random.Random(seed + 99)
         ex = rng2.sample(ex, 200)
-    return cmd_cases() + nested_cases() + cases + ex
+    return prop_cases() + cmd_cases() + nested_cases() + cases + ex
 
 
 def shrink(case):
